@@ -975,7 +975,11 @@ func (o *multiOrigin) RoundTrip(req *http.Request) (*http.Response, error) {
 
 // runRate pushes n body bytes through the shaped Write path under a throttle
 // and reports the elapsed time; c connections run concurrently sharing the
-// shape (global bucket) but each with its own local buckets.
+// shape (its global bucket and its action list) but each with its own local
+// buckets.  rep:<k> repeats the concurrent start k times (a stress of the
+// start-of-response / action-time locking; use a small n so that nothing waits
+// for a drain).  A round that does not finish within 10 s is reported as HANG
+// (the stuck goroutines are abandoned).
 func runRate(in []string) (out []string) {
 	defer func() {
 		if r := recover(); r != nil {
@@ -990,39 +994,59 @@ func runRate(in []string) (out []string) {
 	if nc < 1 {
 		nc = 1
 	}
+	rep, _ := strconv.Atoi(p["rep"])
+	if rep < 1 {
+		rep = 1
+	}
 	tsl := trafficshape.NewListener(nullListener{})
 	defer tsl.Close()
 	h := trafficshape.NewHandler(tsl)
 	out = append(out, fmt.Sprintf("st%d", post(h, body)), rxBits(regs))
-	res := make([]string, nc)
-	var wg sync.WaitGroup
-	for i := 0; i < nc; i++ {
-		wg.Add(1)
-		go func(i int) {
-			defer wg.Done()
-			rc := &recConn{last: time.Now()}
-			c := tsl.GetTrafficShapedConn(rc)
-			rc.ts = c
-			defer c.Close()
-			setContext(c, regs[0], 0, 0)
-			data := bodyBytes(uint64(i), n)
-			t0 := time.Now()
-			w, err := c.Write(data)
-			el := time.Since(t0)
-			maxc := 0
-			for _, ch := range rc.chunks {
-				if ch.n > maxc {
-					maxc = ch.n
+	var res []string
+	for round := 0; round < rep; round++ {
+		res = make([]string, nc)
+		done := make(chan struct{})
+		var wg sync.WaitGroup
+		for i := 0; i < nc; i++ {
+			wg.Add(1)
+			go func(i int) {
+				defer wg.Done()
+				rc := &recConn{last: time.Now()}
+				c := tsl.GetTrafficShapedConn(rc)
+				rc.ts = c
+				defer c.Close()
+				setContext(c, regs[0], 0, 0)
+				data := bodyBytes(uint64(i), n)
+				t0 := time.Now()
+				w, err := c.Write(data)
+				el := time.Since(t0)
+				maxc := 0
+				rc.mu.Lock()
+				for _, ch := range rc.chunks {
+					if ch.n > maxc {
+						maxc = ch.n
+					}
 				}
+				same := 0
+				if bytes.Equal(rc.data, data) {
+					same = 1
+				}
+				rc.mu.Unlock()
+				res[i] = fmt.Sprintf("r%d:%s:el%d:mx%d:same%d", w, errTok(err), us(el), maxc, same)
+			}(i)
+		}
+		go func() { wg.Wait(); close(done) }()
+		select {
+		case <-done:
+		case <-time.After(10 * time.Second):
+			return append(out, fmt.Sprintf("HANG%d", round))
+		}
+		for _, r := range res {
+			if !strings.HasSuffix(r, "same1") || !strings.Contains(r, ":ok:") {
+				return append(out, res...)
 			}
-			same := 0
-			if bytes.Equal(rc.data, data) {
-				same = 1
-			}
-			res[i] = fmt.Sprintf("r%d:%s:el%d:mx%d:same%d", w, errTok(err), us(el), maxc, same)
-		}(i)
+		}
 	}
-	wg.Wait()
 	return append(out, res...)
 }
 
